@@ -1,9 +1,303 @@
-"""Exhaustive abstract-state exploration of small REPEX systems (stub)."""
+"""Exhaustive abstract-state exploration of small REPEX systems (C03/C05/C02).
+
+The *real* ``REPEX_state`` object is driven through the same call sequence as
+``scheduler()`` (initiate / prep_md_items / loop / treat_output) and explored
+to a fixed point by snapshot/restore, branching over
+
+  * every (path, ensemble) the real ``pick`` can draw with non-zero
+    probability, both outcomes of the zero-swap coin and every partner path
+    (scripted ``rgen.choice`` / ``rgen.random``),
+  * which in-flight job completes next,
+  * rejection, or acceptance with every weight staircase the new path(s)
+    could have and still be valid in their ensemble(s).
+
+States are de-duplicated by an abstract signature (per slot: reach of the
+path and rank of its path number; lock vector; in-flight jobs; engine table;
+initiation counter).  Shooting ensembles only (0/1 weights) - with
+wire-fencing weights the space is infinite.  Path storage, data file and
+restart file are replaced by in-memory stand-ins *in this driver only*.
+"""
+import importlib.util  # noqa: F401
+import copy
+import os
+import time
+
+import numpy as np
+
+
+class ScriptRgen:
+    """Scripted stand-in for the scheduler's Generator."""
+
+    def __init__(self, bit_generator=None):
+        self.bit_generator = bit_generator or np.random.PCG64(0)
+        self.script = []
+        self.pos = 0
+        self.trace = []   # number of options at each decision
+
+    def _decide(self, options):
+        if self.pos < len(self.script):
+            k = self.script[self.pos]
+        else:
+            k = 0
+        self.pos += 1
+        self.trace.append(len(options))
+        return options[k]
+
+    def choice(self, n, p=None):
+        opts = [i for i in range(int(n)) if p[i] > 0]
+        return self._decide(opts)
+
+    def random(self, *a):
+        return self._decide([0.25, 0.75])
+
+
+class FP:
+    """Minimal path stand-in (only what REPEX_state touches)."""
+
+    def __init__(self, reach, intf, minus=False):
+        self.path_number = None
+        self.reach = reach
+        self.minus = minus
+        top = intf[0] - 1.0 if minus else intf[reach - 1] + 0.25
+        self.ordermax = (top if not minus else intf[0] + 0.25, 0)
+        self.ordermin = (intf[0] - 1.0, 0)
+        self.length = 3
+        self.adress = set()
+        self.status = "ACC"
+        self.generated = ("sh", 0, 0, 0)
+        if minus:
+            self.weights = (1.0,)
+        else:
+            npl = len(intf) - 1
+            self.weights = tuple([1.0 if j < reach else 0.0
+                                  for j in range(npl)] + [0.0])
+
+
+class _Store:
+    def output(self, step, data):
+        return data["path"]
+
+
+def make_state(size, workers):
+    from infretis.classes.repex import REPEX_state
+    from vf import rig_sched as R
+    R.reset_globals()
+    intf = [k + 0.5 for k in range(size)]
+    cfg = {
+        "current": {"size": size, "cstep": 0, "traj_num": size,
+                    "active": list(range(size)), "locked": [], "frac": {}},
+        "runner": {"workers": workers},
+        "simulation": {"seed": 0, "interfaces": intf, "steps": 10 ** 9,
+                       "shooting_moves": ["sh"] * size, "load_dir": "load",
+                       "tis_set": {"lambda_minus_one": False,
+                                   "maxlength": 100},
+                       "ensemble_engines": [["engine"]] * size},
+        "output": {"screen": 0, "data_dir": ".", "data_file": os.devnull,
+                   "pattern": False},
+    }
+    st = REPEX_state(cfg, minus=True)
+    st.initiate_ensembles()
+    paths = [FP(1, intf, minus=True)]
+    for i in range(size - 1):
+        paths.append(FP(i + 1, intf))
+    for i, p in enumerate(paths):
+        p.path_number = i
+    st.load_paths(paths)
+    st.engine_occ = {"engine": [-1] * workers}
+    st.pstore = _Store()
+    st.write_toml = lambda: None
+    st.rgen = ScriptRgen()
+    return st, intf
+
+
+def signature(st, phase, flight):
+    off = st._offset
+    pns = [t.path_number for t in st._trajs[:-1]]
+    order = sorted(pns)
+    slots = tuple((("m" if t.minus else t.reach), order.index(t.path_number))
+                  for t in st._trajs[:-1])
+    fl = tuple(sorted((tuple(j["ens_nums"]), j["pin"]) for j in flight))
+    occ = tuple(tuple(v) for k, v in sorted(st.engine_occ.items()))
+    return (phase, slots, tuple(int(x) for x in st._locks), fl, occ,
+            st.toinitiate, tuple(map(tuple, (np.asarray(st.state) != 0)
+                                     .astype(int).tolist())))
+
+
+def snapshot(st, rig, flight, last_md):
+    from infretis.classes.repex import REPEX_state
+    d = {k: v for k, v in st.__dict__.items()
+         if k not in ("pstore", "write_toml")}
+    return copy.deepcopy((d, dict(REPEX_state.traj_data),
+                          [m.__dict__ for m in rig.monitors], flight,
+                          last_md))
+
+
+def restore(st, rig, snap):
+    from infretis.classes.repex import REPEX_state
+    d, td, mons, flight, last_md = copy.deepcopy(snap)
+    keep = {k: st.__dict__[k] for k in ("pstore", "write_toml")}
+    st.__dict__.clear()
+    st.__dict__.update(d)
+    st.__dict__.update(keep)
+    REPEX_state.traj_data.clear()
+    REPEX_state.traj_data.update(td)
+    for m, md in zip(rig.monitors, mons):
+        m.__dict__.clear()
+        m.__dict__.update(md)
+    return flight, last_md
+
+
+def explore(size, workers, budget_s, scratch, max_states=None):
+    from vf import rig_sched as R
+    from vf.monitors import LockMonitor, StallMonitor, ProbMonitor
+    R.install_patches()
+    os.makedirs(scratch, exist_ok=True)
+    old = os.getcwd()
+    os.chdir(scratch)
+    st, intf = make_state(size, workers)
+    rig = R.Rig(scratch, [LockMonitor(), StallMonitor(), ProbMonitor()])
+    rig.state = st
+    R.Rig.current = rig
+    rig.hook("on_state", st)
+    P = size - 1
+    base_md = {"mc_moves": st.mc_moves, "interfaces": st.interfaces,
+               "cap": st.cap}
+    t0 = time.time()
+    seen = {}
+    stack = []
+    ntrans = 0
+    complete = True
+
+    def push(phase, flight, last_md):
+        sig = signature(st, phase, flight)
+        if sig in seen:
+            return
+        seen[sig] = len(seen)
+        stack.append((phase, snapshot(st, rig, flight, last_md)))
+
+    def scripts_from(snap, fn):
+        """Enumerate all decision scripts of fn() by replay; yields after
+        each complete execution (state left as fn() produced it)."""
+        todo = [[]]
+        while todo:
+            script = todo.pop()
+            flight, last_md = restore(st, rig, snap)
+            st.rgen.script, st.rgen.pos, st.rgen.trace = script, 0, []
+            out = fn(flight, last_md)
+            trace = st.rgen.trace
+            # spawn siblings for the decisions beyond the given script
+            for d in range(len(script), len(trace)):
+                for alt in range(1, trace[d]):
+                    todo.append(list(script) + [0] * (d - len(script)) +
+                                [alt])
+            yield out
+
+    push("init", [], None)
+    try:
+        while stack:
+            if time.time() - t0 > budget_s or (
+                    max_states and len(seen) > max_states):
+                complete = False
+                break
+            phase, snap = stack.pop()
+            if phase == "init":
+                def start(flight, last_md):
+                    if not st.initiate():
+                        return ("loop", flight, last_md)
+                    md = st.prep_md_items(copy.deepcopy(base_md))
+                    flight = flight + [md]
+                    return ("init", flight, last_md)
+                for (ph, fl, lm) in scripts_from(snap, start):
+                    ntrans += 1
+                    push(ph, fl, lm)
+                continue
+            # loop phase: one scheduler iteration per transition
+            flight0, _ = restore(st, rig, snap)
+            nfl = len(flight0)
+            for j in range(nfl):
+                ens = flight0[j]["ens_nums"]
+                outcomes = [("REJ", None)]
+                if len(ens) == 1:
+                    e = ens[0]
+                    if e < 0:
+                        outcomes.append(("ACC", [("m", 0)]))
+                    else:
+                        for r in range(e + 1, P + 1):
+                            outcomes.append(("ACC", [("p", r)]))
+                else:
+                    for r in range(1, P + 1):
+                        outcomes.append(("ACC", [("m", 0), ("p", r)]))
+                for status, news in outcomes:
+                    def step(flight, last_md, j=j, status=status, news=news):
+                        st.loop()
+                        md = flight[j]
+                        flight = flight[:j] + flight[j + 1:]
+                        md["status"] = status
+                        md["md_start"] = 0.0
+                        if status == "ACC":
+                            for e, (kind, r) in zip(md["ens_nums"], news):
+                                md["picked"][e]["traj"] = FP(
+                                    max(r, 1), intf, minus=(kind == "m"))
+                        out = st.treat_output(md)
+                        if st.cstep + st.workers <= st.tsteps:
+                            out = st.prep_md_items(out)
+                            flight = flight + [out]
+                        return ("loop", flight, None)
+                    for (ph, fl, lm) in scripts_from(snap, step):
+                        ntrans += 1
+                        push(ph, fl, lm)
+            if rig.violations:
+                break
+    except R.AbortCase:
+        pass
+    except BaseException as exc:  # the real object raised
+        import traceback
+        rig.violate("explore-raised", f"{type(exc).__name__}: {exc}",
+                    tb=traceback.format_exc()[-1500:])
+    finally:
+        R.Rig.current = None
+        os.chdir(old)
+    return rig, len(seen), ntrans, complete and not rig.violations
 
 
 def plan(tier, seed):
-    return []
+    if tier == "quick":
+        combos = [(2, 1, 60), (3, 1, 60), (3, 2, 90), (4, 1, 45), (4, 2, 45),
+                  (4, 3, 45)]
+    else:
+        combos = [(2, 1, 120), (3, 1, 300), (3, 2, 600), (4, 1, 900),
+                  (4, 2, 1300), (4, 3, 1300)]
+    return [{"kind": "explore", "size": s, "workers": w, "budget": b,
+             "hashseed": 0} for s, w, b in combos]
 
 
 def work(job, scratch, props=()):
-    return {"n": 0}
+    rig, nstates, ntrans, complete = explore(
+        job["size"], job["workers"], job["budget"],
+        os.path.join(scratch, "explore"))
+    res = {"n": ntrans, "sigs": [f"explore-{job['size']}-{job['workers']}-{i}"
+                                 for i in range(min(nstates, 50000))],
+           "events": dict(rig.events), "violations": [], "samples": [],
+           "reached": dict(rig.reached), "notes": []}
+    res["events"][f"explore_states_n{job['size']}_w{job['workers']}"] = nstates
+    res["events"]["explore_transitions"] = ntrans
+    res["events"]["explore_complete" if complete else
+                  "explore_budget_exhausted"] = 1
+    want = {"C03": ("locks", "shared", "inflight", "zero-weight", "picked",
+                    "engine", "workdir", "ghost", "bad-zero", "unknown-job",
+                    "explore-raised"),
+            "C05": ("pick-raised", "prep-raised", "treat-raised", "inf-retis",
+                    "P-", "sort-livelock", "idle-slot", "duplicate",
+                    "path-number", "explore-raised", "no-perfect"),
+            "C02": ("P-", "no-perfect")}
+    pref = tuple(p for k in props for p in want.get(k, ()))
+    for v in rig.violations:
+        if not pref or any(v["mech"].startswith(p) or p in v["mech"]
+                           for p in pref):
+            v["explore"] = {"size": job["size"], "workers": job["workers"]}
+            res["violations"].append(v)
+    res["samples"].append({"exhaustive_exploration": {
+        "ensembles": job["size"], "workers": job["workers"],
+        "states": nstates, "transitions": ntrans, "fixed_point": complete}})
+    res["x_states"] = nstates
+    return res
